@@ -306,6 +306,32 @@ def correspond(ctx, scale):
                     break
         except Exception as ex:
             failures.append({'key': f'{cls}:interleaved:exception:{type(ex).__name__}', 'what': f'{cls}: {ex!r}', 'case': dict(cls=cls, interleaved=True)})
+    # train() / eval() called on ONE group only (a frozen or swapped-in pretrained group): the groups that are still training share one depth, the
+    # evaluation-mode group never drops - the shared seed belongs to the call, not to a particular group's flag
+    from vector_quantize_pytorch import GroupedResidualVQ as _G1, GroupedResidualFSQ as _G2, GroupedResidualLFQ as _G3
+    for gname, gmk, gdim in (('GroupedResidualVQ', lambda: _G1(dim=9, groups=3, codebook_size=5, num_quantizers=6, quantize_dropout=True), 9),
+                             ('GroupedResidualFSQ', lambda: _G2(dim=6, groups=3, levels=[3, 3], num_quantizers=6, quantize_dropout=True), 6),
+                             ('GroupedResidualLFQ', lambda: _G3(dim=9, groups=3, codebook_size=8, num_quantizers=6, quantize_dropout=True), 9)):
+        try:
+            for eval_group in (0, 1, 2):
+                gq = gmk()
+                gq.train()
+                gq.rvqs[eval_group].eval()
+                for ts in range(8 if not ctx.thorough else 40):
+                    torch.manual_seed(1000 + ts)
+                    with torch.no_grad():
+                        gret = gq(torch.randn(2, 4, gdim), **({'freeze_codebook': True} if gname == 'GroupedResidualVQ' else {}))
+                    gidx = list(gret[1])
+                    depth = [int(sum(1 for k_ in range(gi.shape[-1]) if not bool((gi[..., k_] == -1).all()))) for gi in gidx]
+                    evaluations += 1
+                    dist['one_group_in_eval_calls'] = dist.get('one_group_in_eval_calls', 0) + 1
+                    training_depths = {dv for g_, dv in enumerate(depth) if g_ != eval_group}
+                    if depth[eval_group] != 6 or len(training_depths) != 1:
+                        failures.append({'key': f'{gname}:one-group-in-eval:depths-differ', 'what': f'{gname}(groups=3, 6 layers) with group {eval_group} in evaluation mode, torch seed {1000 + ts}: layers kept per group {depth} '
+                                         '(the evaluation-mode group keeps all layers, the training groups share one depth)', 'case': dict(cls=gname, eval_group=eval_group, torch_seed=1000 + ts, submodule_toggle=True)})
+                        break
+        except Exception as ex:
+            failures.append({'key': f'{gname}:one-group-in-eval:exception:{type(ex).__name__}', 'what': f'{gname}: {ex!r}', 'case': dict(cls=gname, submodule_toggle=True)})
     # supplied indices (ResidualVQ): dropout must not happen -> output equals the all-layer output
     from vector_quantize_pytorch import ResidualVQ
     for (n, c, m) in cfgs[:3]:
